@@ -82,6 +82,12 @@ Theorem c10_bgsave_flag_discipline_in_source :
   Generated.rdb_bgsave_sets_flag_before_spawn = true /\ Generated.rdb_bgsave_clears_flag_after_match = true.
 Proof. exact gen_bgsave_flag_discipline. Qed.
 
+(** [save_run] starts from whatever the disk holds, a leftover temporary file included
+    ([c10_later_save_succeeds] quantifies over it): the code opens the temporary file creating or
+    truncating it, never demanding that it be absent - read off rdb.rs on every run. *)
+Theorem c10_tmp_is_opened_afresh_in_source : Generated.rdb_tmp_opened_afresh = true.
+Proof. exact gen_tmp_opened_afresh. Qed.
+
 (** A SAVE (or SHUTDOWN, or a replica sync) issued while a background save is writing does not
     share its temporary file: save() takes one lock for its whole duration and is the only caller
     of write_snapshot - read off rdb.rs on every run.  Before aa75b1d both saves truncated and
